@@ -36,6 +36,12 @@ PAYLOADS = {
     "quad-dquote": 'a' + '"' * 4 + 'b', "five-dquote": 'a' + '"' * 5 + 'b', "six-dquote": 'a' + '"' * 6 + 'b', "seven-dquote": 'a' + '"' * 7 + 'b',
     "quote-start": '"ab', "quad-squote": "a" + "'" * 4 + "b", "docstring-in-docstring": 'see ' + '"' * 4 + 'opaque" cursor' + '"' * 3,
     "long-triple": "a" + "x" * 150 + '"""' + "y" * 150 + "b", "long-backslash-end": "a" + "x" * 120 + "\\",
+    # words that mean something in the EMITTED code: a generator that inspects its own rendered text must not be steered by them
+    "word-asynciterator": "returns an AsyncIterator of items", "word-default-factory": "uses default_factory internally", "word-yield": "yield per item",
+    "word-field": "see field(default=None)", "word-optional": "Optional[str] or List[int]", "word-type-checking": "if TYPE_CHECKING: import x",
+    "word-notimplemented": "raise NotImplementedError()", "word-async-def": "async def handler(self) -> None:", "word-dataclass": "@dataclass class X:",
+    # alphanumeric for a regular expression, not legal in a Python identifier
+    "superscript": "area_m²", "subscript": "CO₂", "fraction": "T½x", "circled": "①x",
 }
 BENIGN = "atxtb"
 
